@@ -172,3 +172,36 @@ def canonical_complete(ctx):
         ctx.check("req:canonical:complete:%s" % label, ok and nfeas >= 1,
                   "every ref of the map has its %s appended to the signed text (no iteration is skipped): a ref left out is accepted without being covered by the signature" % label,
                   rules.where(cn, eff[0]), detail={"path": bad[:1]}, fn=cn)
+    exact_length(ctx)
+
+
+def exact_length(ctx):
+    """A signature (or key) is built from a byte string only if the string has exactly the right length.  A conversion that
+    takes a prefix accepts `signature || anything` as the same signature: the stored signature blob, an SSH signature field
+    or a COB commit's signature can then carry unsigned trailing bytes."""
+    db = ctx.db
+    for ty, n in (("radicle_crypto::Signature", 64), ("radicle_crypto::PublicKey", 32)):
+        fns = [f for f in db.all_fns() if db.root_of(f)["key"] == "<%s as core::convert::TryFrom<&[u8]>>::try_from" % ty]
+        if not fns:
+            ctx.violated("flow:exact-length:%s" % cfg.short(ty), "TryFrom<&[u8]> for %s not found (anchor missing)" % ty)
+            continue
+        names = [(f, bb, (c.get("n") or c.get("dn") or "")) for f in fns for bb, t, c in db.calls(f)]
+        exact = [x for x in names if re.search(r"ed25519::(Signature|PublicKey)::from_slice$", x[2])]
+        prefix = [x for x in names if re.search(r"slice::(get|get_unchecked|split_at|split_first_chunk|first_chunk|split_at_checked)$|ops::index::Index", x[2])]
+        lencmp = False
+        for f in fns:
+            for bb, tb, lab, facts in cfg.all_edge_facts(db, f):
+                for fa in facts:
+                    if fa[0] == "cmp" and fa[1] in ("Eq", "Ne") and "len" in cfg.nshow(fa[2]) + cfg.nshow(fa[3]):
+                        lencmp = True
+        k = "flow:exact-length:%s" % cfg.short(ty)
+        if prefix and not lencmp:
+            f, bb, nm = prefix[0]
+            ctx.violated(k, "TryFrom<&[u8]> for %s takes part of the input (%s) without comparing its length with %d: `value || trailing bytes` "
+                            "converts to the same value, so what is accepted is not exactly what was signed / stored" % (cfg.short(ty), cfg.short(nm), n),
+                         rules.where(f, bb), fn=f)
+        elif exact or lencmp:
+            ctx.held(k, "TryFrom<&[u8]> for %s accepts only input of exactly %d bytes (%s)" % (
+                cfg.short(ty), n, "ed25519 from_slice" if exact else "length comparison"), rules.where(fns[0]), fn=fns[0])
+        else:
+            ctx.ob(k, "inconclusive", "how TryFrom<&[u8]> for %s bounds the input length was not recognised" % cfg.short(ty), rules.where(fns[0]), fn=fns[0])
